@@ -99,15 +99,16 @@ def ctsMemMachine (C : Cipher) (w : Nat) (iv : Bytes) (ops : MemCts.Op × MemCts
     | ["use", _] => ((), "ok")
     | _ => ((), bad)
 
-def toyMachine (key : Bytes) : Machine Unit where
+/-- raw block encryption / decryption with the case's cipher (the toy cipher, or the table of a logged real cipher) -/
+def toyMachine (C : Cipher) : Machine Unit where
   init := ()
   step := fun _ toks =>
     match toks with
     | ["E", x] => match fromHex x with
-      | some b => ((), "out " ++ toHex (Toy.enc key b))
+      | some b => ((), "out " ++ toHex (C.enc b))
       | none => ((), bad)
     | ["D", x] => match fromHex x with
-      | some b => ((), "out " ++ toHex (Toy.dec key b))
+      | some b => ((), "out " ++ toHex (C.dec b))
       | none => ((), bad)
     | _ => ((), bad)
 
